@@ -1802,7 +1802,16 @@ impl FunctionDef {
                 for (idx, expected_arg) in expected_args.iter().enumerate() {
                     match expected_arg {
                         LambdaArg::Required(arg_name) => {
-                            local_bindings.insert(arg_name.clone(), args[idx]);
+                            // A required parameter may follow an optional one (`(a?, b) => ...`),
+                            // so the arity check alone does not guarantee that it was supplied.
+                            let value = args.get(idx).copied().ok_or_else(|| {
+                                RuntimeError::new(format!(
+                                    "in {}: missing required argument {}",
+                                    self.get_name(),
+                                    arg_name
+                                ))
+                            })?;
+                            local_bindings.insert(arg_name.clone(), value);
                         }
                         LambdaArg::Optional(arg_name) => {
                             local_bindings.insert(
